@@ -22,7 +22,7 @@ func (c19) Name() string { return "c19" }
 func (c19) Rule() string {
 	return "full-server simulation: initialize with generated initializationOptions P0, then up to 4 workspace/didChangeConfiguration events; the simulated client answers the server's workspace/configuration requests with generated payloads (per documented key: correct type, number as string, integral float, boolean as string, null, array, object, zero, negative, non-integral float, unknown keys; nested and dotted spelling; with/without the hledger wrapper; whole-payload shapes null, [], string, number, {}), or with an error, with [], late (after further operations, possibly while a second refresh is in flight) or never, under 7 schedule policies. An independent settings model (written from docs/configuration.md and the property text) predicts the effective value set of every key; it is observed ONLY through behaviour at quiescence: advertised capabilities, completion count / subsequence matching / counts in details, indent and alignment of formatting and of inline-completion text, published diagnostic codes (each category toggled independently, empty list when diagnostics are off), inline completion switch, include depth and file-size limits (the number in the limit message). Totality: every payload is followed by requests that must still be answered; no panic; no task left blocked except on a never-answered request. Non-trivial: >= 1 configuration payload with >= 1 recognised key applied and observed. Distinct: hash of (payload shapes, answer kinds, schedule signature)."
 }
-func (c19) Enumerated(string) int           { return 0 }
+func (c19) Enumerated(string) int            { return 0 }
 func (c19) Components() ([]string, []string) { return serverComponents() }
 
 // ---- independent settings model ---------------------------------------------------
@@ -300,7 +300,7 @@ func genCfgPayload(c *simrt.Chooser) (payload any, shape string) {
 			case 8:
 				v, enc = []any{n}, "ill:array"
 			case 9:
-				v, enc = float64(n) + 0.5, "non-integral-float"
+				v, enc = float64(n)+0.5, "non-integral-float"
 			}
 		}
 		shapes = append(shapes, k.Name+":"+enc)
@@ -362,21 +362,21 @@ func c19ProbeText(counter int) string {
 }
 
 type c19obs struct {
-	codes       map[string]int
-	published   bool
-	nDiag       int
-	depthMsg    int // number in "include depth limit exceeded (N)", 0 = no such message
-	sizeMsg     int // number in "(max N)", 0 = no such message
-	complCount  int
-	complCounts bool // details carry "(n)"
-	fuzzyCount  int
-	indent      int  // leading blanks of formatted posting lines (-1 unknown)
-	aligned     bool // amounts of the two postings of the unbalanced transaction start in one column
-	amountCol   int
-	inlineItems int
+	codes        map[string]int
+	published    bool
+	nDiag        int
+	depthMsg     int // number in "include depth limit exceeded (N)", 0 = no such message
+	sizeMsg      int // number in "(max N)", 0 = no such message
+	complCount   int
+	complCounts  bool // details carry "(n)"
+	fuzzyCount   int
+	indent       int  // leading blanks of formatted posting lines (-1 unknown)
+	aligned      bool // amounts of the two postings of the unbalanced transaction start in one column
+	amountCol    int
+	inlineItems  int
 	inlineIndent int
-	trouble     string
-	fmtLines    []string
+	trouble      string
+	fmtLines     []string
 }
 
 var depthRe = regexp.MustCompile(`include depth limit exceeded \((\d+)\)`)
